@@ -287,7 +287,7 @@ func TestC10(t *testing.T) {
 	}
 
 	kinds := 4
-	rounds := 24
+	rounds := 60
 	if os.Getenv("VERIF_TIER") == "thorough" {
 		kinds = 24
 		rounds = 300
